@@ -248,14 +248,32 @@ def native_random():
         jr.split, jr.uniform, jr.normal = saved
 
 
-def run_native(c, case, concrete, seed=0):
-    """returns dict(confirmed: bool, detail: ..., inputs: ...) or raises"""
+HISTORY = {"second call": {"real": "~2", "int": ""}, "third call": {"real": "", "int": "~3"}}
+
+
+def run_native(c, case, concrete, seed=0, history=None):
+    """returns dict(confirmed: bool, detail: ..., inputs: ...) or raises.
+    history = 'second call' / 'third call': the real function is first called once with the base values (its result is
+    discarded), then -- in the module state that call left behind -- with the renamed symbols of the history check
+    (contracts.verify_contract); the comparison is about that later call."""
+    from . import frame
     SEED[0] = seed
     eng = ConcreteEngine(f"replay:{c.qualname}[{case.label}]", concrete)
     prev, engine.CURRENT = engine.CURRENT, eng
     sym.CONCRETE_ABSTRACT[0] = True
     smt.NATIVE_REPLAY[0] = True
     try:
+        frame.reset()
+        if history in HISTORY:
+            try:
+                b0 = case.build(eng)
+                a0, k0 = (b0[0], b0[1]) if isinstance(b0, tuple) and len(b0) >= 2 and isinstance(b0[1], dict) else (b0, {})
+                env0 = numeval.NumEnv(ops.interner(eng), seed)
+                with contextlib.redirect_stdout(io.StringIO()), native_random():
+                    (c.invoke or c.orig)(*_to_native(tuple(a0), env0), **_to_native(dict(k0), env0))
+            except Exception:
+                pass
+            eng.sym_rename = HISTORY[history]
         try:
             built = case.build(eng)
         except engine.PathAbort:
@@ -341,10 +359,11 @@ def replay_obligation(ob, seed=0, max_battery=16):
         cands.append(dict(mv, __src__="solver model"))
     for b in battery(seed, max_battery):
         cands.append(dict(b, __src__="battery"))
+    hist = next((h for h in HISTORY if f"[{h}" in (ob.get("name") or "")), None)
     for cand in cands:
         src = cand.pop("__src__")
         try:
-            r = run_native(c, case, cand, seed)
+            r = run_native(c, case, cand, seed, history=hist)
         except Exception as ex:
             tried.append({"source": src, "error": f"{type(ex).__name__}: {str(ex)[:200]}"})
             continue
